@@ -416,6 +416,26 @@ def decode(harness, vals):
             d = r.bytes_n(8, L[0])
             m = r.bytes_n(2, L[1])
             return [call("vector_take", d, r.i128(), m)]
+        if base == "c12_rope_concat_pair":
+            x, y, needle = r.u8(), r.u8(), r.u8()
+            calls = []
+            for frm in (0, 1, 2):
+                src = "[0x%02x, 0x%02x] __binary_concat__ [~, %d, %d] __binary_index__" % (x, y, needle, frm)
+                calls.append({"builtin": "binary_index", "args": [bytes([x, y]), needle, frm], "program": src,
+                              "arg": to_json_arg([bytes([x, y]), needle, frm])})
+            return calls
+        if base == "c12_rope_slice_window":
+            b = bytes([r.take()[0], r.take()[0]])
+            needle = r.u8()
+            off = L[0]
+            # the same observation through the public API: a real Slice rope built by
+            # __binary_slice__, searched by __binary_index__
+            calls = []
+            for frm in (0, 1):
+                src = "[0x%s, %d, %d] __binary_slice__ [~, %d, %d] __binary_index__" % (b.hex(), off, off + 1, needle, frm)
+                calls.append({"builtin": "binary_index", "args": [b[off:off + 1], needle, frm], "program": src,
+                              "arg": to_json_arg([b[off:off + 1], needle, frm])})
+            return calls
         if base == "c12_rope_tiled":
             u = r.bytes_n(2, L[0])
             c = r.usize()
